@@ -1,6 +1,7 @@
 import BpProofs.SrcTiePyDict
 import BpProofs.SrcTieFromPyDict
 import BpProofs.Props.C04
+import BpProofs.Props.C04Src
 /-
   C14 (touching C04), tied to the SOURCE: `Message.to_pydict`, `to_json`, `from_json`.
 
@@ -61,6 +62,25 @@ theorem src_to_pydict_loop (S : Schema) (cs : KeyCase) (incl : Bool) (c : Nat) (
     (srcLoopP S cs incl (fieldsOf S c) cur 0 sl []).bind (fun kvs => .ok (mkObj kvs))
       = ofR (toPyDict S cs incl (.msg c sl ow unk cur)) :=
   srcLoopP_toPyDict S cs incl c sl ow unk cur hinj hok
+
+/-- **`m.to_pydict(casing)` as written, on every typed message**: for a schema inside C04's `jsonOk`, a
+    message whose slots are typed (`slotsOk'`, the judgement of `wellTyped'`) and whose dict slots have
+    pairwise distinct keys, the field loop as written returns exactly the model's `toPyDict m` (all guards
+    of the tie are discharged) -/
+theorem src_to_pydict_of_typed (S : Schema) (E : Enums) (cs : KeyCase) (hS : jsonOk S E cs = true) (c : Nat)
+    (sl : List Val) (ow : Bool) (unk : Bytes) (cur : List (Option Nat))
+    (ht : slotsOk' S (fieldsOf S c) cur 0 sl = true) (hk : ∀ v ∈ sl, keysDistinct v = true) :
+    (srcLoopP S cs false (fieldsOf S c) cur 0 sl []).bind (fun kvs => .ok (mkObj kvs))
+      = ofR (toPyDict S cs false (.msg c sl ow unk cur)) := by
+  have hn : namesOk cs (fieldsOf S c) = true := by
+    unfold jsonOk at hS
+    simp only [Bool.and_eq_true, List.all_eq_true] at hS
+    unfold fieldsOf
+    cases hc : S[c]? with
+    | none => rfl
+    | some d => exact (hS.1 d (List.mem_of_getElem? hc)).2
+  exact src_to_pydict_loop S cs false c sl ow unk cur (C04.src_keys_distinct cs _ hn)
+    (slotsTieOkP_of_typed S cs (schemaJsonOk_of_jsonOk S E cs hS) _ cur sl 0 ht hk)
 
 /-- the default guard holds, without `include_default_values`, of every field of a schema inside `jsonOk` -/
 theorem src_pydict_default_guard (S : Schema) (E : Enums) (cs : KeyCase) (hS : jsonOk S E cs = true) (f : FieldD) :
